@@ -300,15 +300,20 @@ def _run_case(case):
         wbits, inbits, shown_by_instr = {}, {}, {}
         for mi_, ii, mod, node, name in layers:
             sd = shapes_dict(node)
-            wm = mod.get_cost(lambda v: torch.tensor(1.0), sd).detach().flatten().tolist()
             ent = by_layer.get(id(mod._parameters), [])
+            # weight of every matrix entry, independent of how the matrix is laid out: the cost under a
+            # function that answers 1 for one pair of precisions only
+            wm = []
+            for e_ in ent:
+                pair = (e_[2], e_[3])
+                ind = lambda v, pair=pair: torch.tensor(1.0 if (float(v['in_precision']), float(v['w_precision'])) == pair else 0.0)
+                wm.append(float(torch.sum(mod.get_cost(ind, sd))))
             shown_by_instr[ii] = (wm, ent)
             rows = []
-            for k, e_ in enumerate(ent):
-                w = wm[k] if k < len(wm) else float('nan')
+            for w, e_ in zip(wm, ent):
                 rows.append(mc.lst([mc.rat(mc.small_frac(w)), mc.rat(mc.frac_of(e_[0])), mc.rat(mc.frac_of(e_[1])),
                                     mc.rat(mc.frac_of(e_[2])), mc.rat(mc.frac_of(e_[3])), mc.rat(mc.small_frac(e_[4]))]))
-            shown.append('%d:%s' % (mi_, mc.lst(rows)))
+            shown.append('%d:%s' % (mi_, mc.lst(sorted(rows))))
             typ = type(mod).__mro__[1]
             per = {}
             for k in ('params_bit', 'ops_bit') + (('mpic_latency',) if mpic_ok else ()) + (('ne16_latency',) if ne16 else ()):
@@ -512,20 +517,23 @@ def _run_prune(case):
                     'exact_total': {'pb': sum(v['pb'] for v in ex.values()), 'ob': sum(v['ob'] for v in ex.values())}}
             res['steps'].append(step)
             kind = _geometry(desc)[cons]['kind']
-            if per['probe_in'] != ex[cons]['alive_in']:
-                res['fail'].append((KEY_LINEAR if kind == 'lin' else 'C05:shown-in-features:%s' % kind,
-                                    '%s: consumer is shown %s input features with %d channels of the producer pruned (alive %d)'
-                                    % (case['name'], per['probe_in'], k, ex[cons]['alive_in'])))
-            if per['params_bit'] != ex[cons]['pb'] or per['ops_bit'] != ex[cons]['ob']:
-                res['fail'].append((KEY_LINEAR if kind == 'lin' else KEY_F14,
+            bad_in = per['probe_in'] != ex[cons]['alive_in']
+            in_key = KEY_LINEAR if kind == 'lin' else 'C05:shown-in-features:%s' % kind
+            if bad_in:
+                res['fail'].append((in_key, '%s: consumer is shown %s input features with %d channels of the producer pruned '
+                                    '(alive %d)' % (case['name'], per['probe_in'], k, ex[cons]['alive_in'])))
+            bad_cons = per['params_bit'] != ex[cons]['pb'] or per['ops_bit'] != ex[cons]['ob']
+            if bad_cons:
+                res['fail'].append((in_key if bad_in else 'C05:consumer-cost:%s' % kind,
                                     '%s: consumer cost (%s, %s) with %d producer channels pruned, exact (%d, %d)'
                                     % (case['name'], per['params_bit'], per['ops_bit'], k, ex[cons]['pb'], ex[cons]['ob'])))
-            if tot['params_bit'] != step['exact_total']['pb'] or tot['ops_bit'] != step['exact_total']['ob']:
-                res['fail'].append((KEY_F14, '%s: network cost (%s, %s) with %d producer channels pruned, exact (%d, %d)'
+            if not bad_in and not bad_cons and (tot['params_bit'] != step['exact_total']['pb'] or tot['ops_bit'] != step['exact_total']['ob']):
+                res['fail'].append((KEY_F14 if k > 0 else 'C05:total:prune',
+                                    '%s: network cost (%s, %s) with %d producer channels pruned, exact (%d, %d)'
                                     % (case['name'], tot['params_bit'], tot['ops_bit'], k, step['exact_total']['pb'],
                                        step['exact_total']['ob'])))
             if prev is not None and not (per['params_bit'] < prev['params_bit'] and per['ops_bit'] < prev['ops_bit']):
-                res['fail'].append((KEY_LINEAR if kind == 'lin' else 'C05:pruning-does-not-lower-consumer:%s' % kind,
+                res['fail'].append((in_key if bad_in else 'C05:pruning-does-not-lower-consumer:%s' % kind,
                                     '%s: pruning channel %d of the producer leaves the consumer cost at (%s, %s) (was (%s, %s))'
                                     % (case['name'], k, per['params_bit'], per['ops_bit'], prev['params_bit'], prev['ops_bit'])))
             prev = per
@@ -632,7 +640,8 @@ def run(chk):
             continue
         a = answers[k]
         chk.corr(case, r.get('feat'), a.get('feat'), 'effective input features / alive output features per layer')
-        chk.corr(case, r.get('shown'), a.get('shown'), 'what the probing CostSpec is shown, entry by entry, with the entry weights')
+        chk.corr(case, r.get('shown'), _sort_shown(a.get('shown')),
+                 'what the probing CostSpec is shown, entry by entry (as a multiset per layer), with the entry weights')
         if not r.get('big'):
             chk.corr(case, r.get('lc'), a.get('lc'), 'per-layer params_bit / ops_bit')
             chk.corr(case, r.get('cost'), a.get('cost'), 'network params_bit / ops_bit')
@@ -655,6 +664,19 @@ def run(chk):
         for case, r in zip(extra, common.pmap(_run_case, extra)):
             chk.count(json.dumps([case['desc']['prog'], case['cfg']['aseed'], case['family']]), bucket='escalated')
             _judge(chk, case, r)
+
+
+def _sort_shown(shown):
+    """the model lists the entries of a layer rows-first; the order in which the implementation visits
+    them is not part of the property: compare as a multiset"""
+    import re
+    if shown is None:
+        return None
+    out = []
+    for m_ in re.finditer(r'(\d+):\[((?:\[[^\]]*\],?)*)\]', shown):
+        rows = re.findall(r'\[[^\]]*\]', m_.group(2))
+        out.append('%s:%s' % (m_.group(1), mc.lst(sorted(rows))))
+    return mc.lst(out)
 
 
 def _ne16_from_shown(shown, geo, desc):
